@@ -12,6 +12,11 @@ def zero_ode(u, t):
     return [u * 0]
 
 
+def ode_singular(u, t):
+    """singular at t = 0 (u(0) = 1): a validation grid that contains 0 gives an infinite validation loss"""
+    return [diff(u, t) + u / t]
+
+
 def ode2(u, v, t):
     return [diff(u, t) - v, diff(v, t) + u]
 
@@ -43,3 +48,18 @@ class ClipSGD(torch.optim.SGD):
         for g in self.param_groups:
             torch.nn.utils.clip_grad_norm_(g['params'], 0.5)
         return super().step(closure)
+
+
+class CountingNet(torch.nn.Module):
+    """a network with a buffer that every forward pass updates (as BatchNorm's running statistics do)"""
+
+    def __init__(self):
+        super().__init__()
+        self.lin = torch.nn.Linear(1, 1)
+        self.NN = torch.nn.Sequential()
+        self.register_buffer('calls', torch.tensor(0.0))
+
+    def forward(self, x):
+        with torch.no_grad():
+            self.calls.add_(1.0)
+        return self.lin(x)
